@@ -88,7 +88,7 @@ def scaler_case(cid, kind, X, w, wm, ws, cw, atol=(0, 1), rtol=(0, 1), tiny=True
         big = float(rng.choice([1, 1, 2 ** 20, 2 ** 26]))
         route("shifted-input" if big == 1 else "shifted-input-by-large-offset", Xf + rng.integers(-9, 10, size=m) * big, sw)
     if ws and wm and tiny and rtol[0] == 0:
-        a = float(rng.choice([-4, -0.5, 2, 8]))
+        a = float(rng.choice([-4, -0.5, 2, 8, 1e-4, 1e3]))       # also other units: a variance of 1e-8 is far above the default tolerance 1e-12
         route("rescaled-input", Xf * a, sw, sign=True)
     return c
 
@@ -97,7 +97,7 @@ def gen(args):
     wid, n, sd = args
     rng = np.random.default_rng([sd, wid, 1111])
     out = []
-    for t in range(n):
+    for t in core.timed(range(n)):
         nn, m = int(rng.integers(2, 13)), int(rng.integers(1, 6))
         kind = ["plain", "scales", "offsets", "constcol", "lowvar"][int(rng.integers(5))]
         X = rng.integers(-6, 7, size=(nn, m))
@@ -124,7 +124,7 @@ def gen(args):
 def gen_enum(args):
     wid, cfgs = args
     out = []
-    for k, e in cfgs:
+    for k, e in core.timed(cfgs):
         w = None if not e["w"] else e["w"]
         out.append(scaler_case("e%d" % k, "enumerated", e["X"], w, e["wm"], e["ws"], e["cw"], extras=False))
     return out
